@@ -326,6 +326,10 @@ func init() {
 	curGate.Store((*gate)(nil))
 
 	dispatch := func(p string) {
+		if p == "N_top" {
+			atomic.AddInt64(&nTopCount, 1)
+		}
+
 		if g, _ := curGate.Load().(*gate); g != nil {
 			g.yield(p)
 		}
